@@ -102,6 +102,30 @@ def model(tag, *args):
             rows = m.tolist()
             rows[args[1]][args[2]] = args[3]
             return rows
+    if fam == 'mvslice':
+        # op = which bounds are present, e.g. 'abc', 'a_c', '_bc', '__c', 'ab_', 'a__', '_b_'; p[2] = literal step or ''
+        m = args[0]
+        it = iter(args[1:])
+        a = next(it) if op[0] == 'a' else None
+        b = next(it) if op[1] == 'b' else None
+        c = next(it) if op[2] == 'c' else (int(p[2]) if len(p) > 2 and p[2] else None)
+        if c == 0:
+            raise ValueError('step')
+        vals = list(m.tolist() if isinstance(m, memoryview) else m)
+        r = vals[a:b:c]
+        return (len(r), r)
+    if fam == 'mvslice2':
+        # 2-D: one axis sliced with run-time a:b:c, the other axis by the fixed form in p[2]
+        m, a, b, c = args[:4]
+        if c == 0:
+            raise ValueError('step')
+        rows = m.tolist()
+        other = {'all': slice(None), 'rev': slice(None, None, -1)}.get(p[2])
+        if op == 'ax0':
+            sel = rows[a:b:c]
+            return [r[other] if other is not None else r[args[4]] for r in sel]
+        sel = rows[other]
+        return [r[a:b:c] for r in sel]
     raise RuntimeError('no model for %s' % tag)
 
 
